@@ -1549,3 +1549,67 @@ def rule_dispatch_branches_contribute(ctx, rep: Report, rid="A10", wrapper="Pybi
                 cur = cur.orelse[0] if len(cur.orelse) == 1 and isinstance(cur.orelse[0], ast.If) else None
     if n < 6:
         raise AnalysisError(f"{rep.prop}/{rid}: only {n} dispatch branches found in {wrapper}.{method}")
+
+
+def rule_templates_are_constant(ctx, rep: Report, rid="Q10", cls="PybindWrapper"):
+    """The receiver of every `.format(...)` is template text written in the source - literals, concatenations of literals,
+    locals bound to such, attributes holding the module template - never text that comes from the input (a docstring, a
+    default value, a name).  Data spliced into the template is parsed by str.format as well: a `{` or `}` in a
+    documentation text raises KeyError / IndexError or is replaced by another field's value."""
+    prog = ctx.prog
+    ci = prog.cls(cls)
+    n = 0
+    for mname, fn in sorted(ci.methods.items()):
+        la = local_assignments(fn)
+        params = set(func_params(fn))
+
+        def constant_text(e, depth=4) -> Tuple[bool, str]:
+            if isinstance(e, ast.Constant) and isinstance(e.value, str):
+                return True, ""
+            if isinstance(e, ast.JoinedStr):
+                return False, f"f-string `{unparse(e)[:40]}`"
+            if isinstance(e, ast.BinOp) and isinstance(e.op, (ast.Add, ast.Mult)):
+                if isinstance(e.op, ast.Mult):
+                    return constant_text(e.left, depth)
+                a, b = constant_text(e.left, depth), constant_text(e.right, depth)
+                return (a[0] and b[0]), (a[1] or b[1])
+            if isinstance(e, ast.Call) and isinstance(e.func, ast.Attribute) and e.func.attr in ("dedent", "indent", "strip", "lstrip", "rstrip", "join") and e.args:
+                return constant_text(e.args[0], depth)
+            if isinstance(e, ast.Call) and isinstance(e.func, ast.Attribute) and e.func.attr == "format":
+                # a two-stage template: source text filled with layout strings the caller chose (prefix, indentation)
+                parts = [e.func.value] + list(e.args) + [k.value for k in e.keywords]
+                for p_ in parts:
+                    ok, why = constant_text(p_, depth - 1)
+                    if not ok:
+                        return False, why
+                return True, ""
+            if isinstance(e, ast.Attribute):
+                return True, ""                     # self.module_template, WrapperTemplate.x: template text by construction
+            if isinstance(e, ast.Name):
+                if e.id in params:
+                    return True, ""                 # a template handed in by the caller is judged at the caller
+                if depth <= 0:
+                    return False, f"`{e.id}`"
+                vs = [st.value for st in la.get(e.id, []) if isinstance(st, ast.Assign)]
+                augs = [st.value for st in la.get(e.id, []) if isinstance(st, ast.AugAssign)]
+                if not vs:
+                    return False, f"`{e.id}` (not a local constant)"
+                for v in vs + augs:
+                    ok, why = constant_text(v, depth - 1)
+                    if not ok:
+                        return False, f"`{e.id}` <- {why or unparse(v)[:40]}"
+                return True, ""
+            if isinstance(e, ast.IfExp):
+                a, b = constant_text(e.body, depth), constant_text(e.orelse, depth)
+                return (a[0] and b[0]), (a[1] or b[1])
+            return False, f"`{unparse(e)[:50]}`"
+        for c in walk_no_nested(fn):
+            if isinstance(c, ast.Call) and isinstance(c.func, ast.Attribute) and c.func.attr == "format" and not isinstance(c.func.value, ast.Name) \
+                    or (isinstance(c, ast.Call) and isinstance(c.func, ast.Attribute) and c.func.attr == "format" and isinstance(c.func.value, ast.Name)):
+                n += 1
+                ok, why = constant_text(c.func.value)
+                rep.add(rid, f"{cls}.{mname}:#{sum(1 for o in rep.obs if o.rule == rid and o.construct.startswith(cls + '.' + mname + ':')) + 1}:the format template is source text",
+                        ok, f"the template contains {why}: text from the input becomes part of the template, so `{{` / `}}` in it are read as format fields",
+                        f"{ci.mod.rel}:{c.lineno}", nontrivial=not ok)
+    if n < 15:
+        raise AnalysisError(f"{rep.prop}/{rid}: only {n} format calls found in {cls}")
